@@ -334,3 +334,30 @@ META["C06"] = dict(
     },
     assumptions=["a foreign key beside class_path/init_args (spec level) is not among the levels the statement lists and is not inserted"],
 )
+
+META["C12"] = dict(
+    title="auto_cli calls the component with exactly the parsed values",
+    level="exploration",
+    level_text="Call-log monitor over generated programs written to real source files: functions, async functions, lists and "
+    "nested dicts of functions, classes with 1-3 methods (plain, static, class methods, property). Signatures have 1-6 "
+    "parameters (positional-or-keyword / keyword-only, with / without default, Optional without default, 16 annotations). "
+    "Values arrive as positionals, options (= and space form) and --config file/string. Every body records its bound arguments "
+    "and returns a unique token; the monitor checks exactly-once calls, constructor/method separation, each binding "
+    "(given value converted to the declared type, else the signature default; type for type) and the return value; omitting a "
+    "required parameter must fail.",
+    level_note="Trusted: the generator's own record of which value was given for which parameter. Sampled programs.",
+    shards=g(4, 16),
+    budget=g(40, 240),
+    technique="call-log monitor (exactly-once, argument binding, return value) on generated programs driven through auto_cli",
+    rule="a case is (component kind, selected component, tuple of (annotation, has default, keyword-only) of its parameters, "
+    "as_positional, config used); distinct by hash; non-trivial = the invocation reached the component or was rejected.",
+    gates={
+        "mon.invocations": g(1500, 15000),
+        "mon.required_omitted": g(100, 1000),
+        "st.kind.function": g(200, 2000), "st.kind.class": g(200, 2000), "st.kind.functions_list": g(100, 1000),
+        "st.kind.functions_dict": g(30, 300), "st.kind.async_function": g(50, 500),
+        "st.param.poskw.required": g(100, 1000), "st.param.poskw.default": g(300, 3000), "st.param.kwonly.default": g(100, 1000),
+        "st.param.kwonly.required": g(30, 300), "st.param.poskw.optional-nodefault": g(20, 200),
+    },
+    assumptions=["a parameter named 'config' is not generated (auto_cli reserves that option name)"],
+)
